@@ -12,6 +12,7 @@ structure DState where
   freed : Bool := false
   fileCheck : Bool := false      -- this line ends with the file-content check of the fd/filename/FILE sinks
   sysScript : List SysAns := []
+  sawFatal : Bool := false       -- an earlier call returned fatal (the handle may be in state FATAL)
   everBad : Bool := false        -- some earlier call saw a failing callback invocation
   sawFilter : Bool := false      -- a `filter` op was issued (the filter chain is freed when open fails)
 
@@ -98,9 +99,11 @@ def genFill (len seed : Nat) : List Nat :=
 
 /-- Monitor mode: the only thing checked is the property predicate on what the
 implementation printed: a call during which the callback failed must not report success. -/
-def monitorLine (obs : String) : String :=
+def monitorLine (obs : String) (freeOnFatal : Bool := false) : String :=
   let ws := LA.words obs
-  let bad := ws.contains "bad=1"
+  -- archive_write_free on a handle that is already FATAL closes the filters and deliberately
+  -- drops the status of that ("(void)__archive_write_filters_close(a)")
+  let bad := ws.contains "bad=1" && !(freeOnFatal && ws.head? == some "free")
   let st := ws.getD 1 ""
   let okish := st == "ok" || st == "warn" || st.toNat?.isSome
   if bad && okish then "VIOLATED write-fault-not-reported: " ++ obs else obs
@@ -154,7 +157,7 @@ def stepLine0 (d : DState) (op obs : String) : DState × String :=
     | some r => ({ d with h := some { h with openerRet := r } }, "ok")
     | none => (d, "bad-op")
   | _ =>
-  if d.monitor then (d, monitorLine obs) else
+  if d.monitor then (d, monitorLine obs d.sawFatal) else
   match ws with
   | ["bpb", v] =>
     match v.toInt? with
@@ -227,7 +230,8 @@ def stepLine0 (d : DState) (op obs : String) : DState × String :=
 /-- Engine `det` merges two runs of the implementation under different heap/stack poison; a
 line on which they differ arrives as `NONDET …` and is a violation of C11 whatever the model says. -/
 def stepLine (d : DState) (op obs : String) : DState × String :=
-  let r := stepLine0 d op obs
+  let r0 := stepLine0 d op obs
+  let r := ({ r0.1 with sawFatal := r0.1.sawFatal || (LA.words r0.2).getD 1 "" == "fatal" }, r0.2)
   if obs.startsWith "NONDET" then (r.1, "VIOLATED output-depends-on-heap-or-stack-contents: " ++ obs) else r
 
 def engine : LA.Engine := { σ := DState, init := {}, step := stepLine }
